@@ -40,15 +40,21 @@ func openHist(filename string) (list []Item, err error) {
 		return list, err
 	}
 
-	scanner := bufio.NewScanner(file)
-	for scanner.Scan() {
-		var item Item
-		err := json.Unmarshal(scanner.Bytes(), &item)
-		if err != nil || len(item.Block) == 0 {
-			continue
+	// A bufio.Scanner gives up at the first line longer than 64 KiB, which hid
+	// that entry and every entry after it. Read lines of any length instead.
+	reader := bufio.NewReader(file)
+	for {
+		line, rerr := reader.ReadBytes('\n')
+		if len(line) > 0 {
+			var item Item
+			if json.Unmarshal(line, &item) == nil && len(item.Block) != 0 {
+				item.Index = len(list)
+				list = append(list, item)
+			}
 		}
-		item.Index = len(list)
-		list = append(list, item)
+		if rerr != nil {
+			break
+		}
 	}
 
 	file.Close()
